@@ -182,7 +182,7 @@ func (c *nfClient) nfOf(e *Engine, st *State, x ast.Expr) (string, string) {
 			}
 			return out, src
 		}
-		switch callee.Name() {
+		switch fnName(callee) {
 		case "makeErrorOpaque":
 			return "none", ""
 		case "joinErrors":
@@ -199,7 +199,7 @@ func (c *nfClient) nfOf(e *Engine, st *State, x ast.Expr) (string, string) {
 			}
 			return out, src
 		}
-		if callee.Origin() != nil && callee.Origin().Name() == "firstParse" || callee.Name() == "firstParse" {
+		if callee.Origin() != nil && fnName(callee.Origin()) == "firstParse" || fnName(callee) == "firstParse" {
 			out, src := "none", ""
 			for _, a := range v.Args {
 				if lit, ok := ast.Unparen(a).(*ast.FuncLit); ok {
@@ -296,14 +296,14 @@ func (c *nfClient) PostCall(e *Engine, st *State, call *ast.CallExpr, callee *ty
 		return st.WithExt("cnt", incCnt(cntOf(st)))
 	case callee == c.w.prev:
 		return st.WithExt("cnt", decCnt(cntOf(st)))
-	case callee != nil && (callee.Name() == "split" || callee.Name() == "splitSemi"):
+	case callee != nil && (fnName(callee) == "split" || fnName(callee) == "splitSemi"):
 		return st.WithExt("cnt", "+")
 	}
 	return nil
 }
 
 func (c *nfClient) PreCall(e *Engine, st *State, call *ast.CallExpr, callee *types.Func) *State {
-	if callee == nil || callee.Name() != "isNotFound" || len(call.Args) != 1 || !c.w.final {
+	if callee == nil || fnName(callee) != "isNotFound" || len(call.Args) != 1 || !c.w.final {
 		return nil
 	}
 	n, src := c.nfOf(e, st, call.Args[0])
@@ -314,7 +314,7 @@ func (c *nfClient) PreCall(e *Engine, st *State, call *ast.CallExpr, callee *typ
 	ord, idx := 0, 0
 	ast.Inspect(c.fd.Body, func(n ast.Node) bool {
 		if cc, ok := n.(*ast.CallExpr); ok {
-			if f := Callee(e.Info, cc); f != nil && f.Name() == "isNotFound" {
+			if f := Callee(e.Info, cc); f != nil && fnName(f) == "isNotFound" {
 				ord++
 				if cc == call {
 					idx = ord
@@ -408,7 +408,7 @@ func (c *nfClient) SplitAssign(e *Engine, st *State, lhs, rhs []ast.Expr, _ ast.
 	if callee == nil || TypeStr(e.Info.TypeOf(last)) != "error" {
 		return nil
 	}
-	isFirstParse := callee.Name() == "firstParse" || (callee.Origin() != nil && callee.Origin().Name() == "firstParse")
+	isFirstParse := fnName(callee) == "firstParse" || (callee.Origin() != nil && fnName(callee.Origin()) == "firstParse")
 	if !c.isParserMethod(callee) && !isFirstParse {
 		return nil
 	}
@@ -524,7 +524,7 @@ func ruleC08NotFound(p *Program, r *Run) {
 		if fd.Name.Name == "Parse" && fd.Recv == nil {
 			isProd = true
 		}
-		if !isProd || fd.Name.Name == "next" || fd.Name.Name == "prev" {
+		if !isProd || declName(fd) == "next" || declName(fd) == "prev" {
 			continue
 		}
 		units = append(units, fd)
@@ -598,7 +598,7 @@ func isSplitCall(info *types.Info, e ast.Expr) *ast.CallExpr {
 	if !ok {
 		return nil
 	}
-	if f := Callee(info, call); f != nil && (f.Name() == "split" || f.Name() == "splitSemi") && f.Type().(*types.Signature).Recv() != nil {
+	if f := Callee(info, call); f != nil && (fnName(f) == "split" || fnName(f) == "splitSemi") && f.Type().(*types.Signature).Recv() != nil {
 		return call
 	}
 	return nil
@@ -620,7 +620,7 @@ func (c *splitPairClient) PostAssign(e *Engine, st *State, lhs, rhs []ast.Expr, 
 				fresh = true
 			}
 			if call, ok := ast.Unparen(rhs[0]).(*ast.CallExpr); ok {
-				if f := Callee(e.Info, call); f != nil && f.Name() == "joinErrors" {
+				if f := Callee(e.Info, call); f != nil && fnName(f) == "joinErrors" {
 					for _, a := range call.Args {
 						if litOf(a) != nil {
 							fresh = true
@@ -637,7 +637,7 @@ func (c *splitPairClient) PostAssign(e *Engine, st *State, lhs, rhs []ast.Expr, 
 }
 
 func (c *splitPairClient) PostCall(e *Engine, st *State, call *ast.CallExpr, callee *types.Func) *State {
-	if callee == nil || callee.Name() != "endSplit" {
+	if callee == nil || fnName(callee) != "endSplit" {
 		return nil
 	}
 	sel, ok := ast.Unparen(call.Fun).(*ast.SelectorExpr)
@@ -653,7 +653,7 @@ func (c *splitPairClient) PostCall(e *Engine, st *State, call *ast.CallExpr, cal
 	flows := false
 	switch par := e.P.Parent(call).(type) {
 	case *ast.CallExpr:
-		if f := Callee(e.Info, par); f != nil && f.Name() == "joinErrors" {
+		if f := Callee(e.Info, par); f != nil && fnName(f) == "joinErrors" {
 			switch gp := e.P.Parent(par).(type) {
 			case *ast.AssignStmt, *ast.ReturnStmt:
 				_ = gp
@@ -823,8 +823,8 @@ func ruleC08ErrorToken(p *Program, r *Run) {
 	info := pkg.TypesInfo
 	// every comparison with TokenError
 	for _, fd := range AllFuncs(pkg) {
-		if !strings.HasSuffix(p.Fset.Position(fd.Pos()).Filename, "parser.go") {
-			continue
+		if p.isLexerFunc(fd) || p.IsGenerated(pkg, fd.Pos()) {
+			continue // the parser proper: everything in the package that is not part of the lexer
 		}
 		ast.Inspect(fd.Body, func(n ast.Node) bool {
 			b, ok := n.(*ast.BinaryExpr)
